@@ -45,6 +45,8 @@ def main(argv: list[str]) -> int:
             with core.watchdog(cfg.get("case_timeout", 120)):
                 mod.run_case(ctx, idx, rng, tier)
             ctx.evaluations += 1
+            if len(ctx.samples) < 3 and ctx.case is not None:
+                ctx.sample({"case_index": idx, "case": ctx.case})  # every run writes out a few actual cases
         except core.CaseTimeout:
             ctx.inconclusive.append(f"case {idx}: watchdog fired")
         except Exception:
